@@ -40,7 +40,7 @@ theorem parseElem_otag (fx : Fixes) (hn : fx.numbered = true) (hr : fx.reserved 
     (heq : EnvEq env st) (hst : StackOk st) (name : Bytes) (ns : Option Bytes) (value : Bytes) (valPfx : PfxData)
     (attrs : List OAttr) (hname : NameOk name) (hns : ∀ u ∈ ns, NoCtl u) (hpd : PfxDataOk valPfx)
     (hat : ∀ a ∈ attrs, AttrOk a) (hdup : noDupAttrs (attrs.map viewAttr) = true)
-    (hcons : consistent (reservedOf valPfx attrs) = true) (hdf : ns = none → findDefault st = none)
+    (hcons : consistent (reservedOf valPfx attrs) = true) (hdf : ns = none → fx.undeclare = true ∨ findDefault st = none)
     (items : List Item) (st' : NsStack) (htag : startTagItems fx st ns value valPfx attrs = (items, st')) (fuel : Nat) :
     EnvEq (declared items ++ env) st' ∧ StackOk st' ∧
     (∀ rest, parseElem env (fuel + 1) (60 :: (name ++ (renderItems items ++ 47 :: 62 :: rest))) =
@@ -63,7 +63,24 @@ theorem parseElem_otag (fx : Fixes) (hn : fx.numbered = true) (hr : fx.reserved 
   have hdflt : (lookup (declared items ++ env) none).getD [] = ns.getD [] := by
     rw [heq' none, lookup_none_eq, hfd]
     cases ns with
-    | none => simp [hdf rfl]
+    | none =>
+      simp only
+      have hdis : defaultInScope st = false → (findDefault st).getD [] = [] := by
+        intro h
+        unfold defaultInScope at h
+        cases hfd' : findDefault st with
+        | none => rfl
+        | some u => rw [hfd'] at h; cases u <;> simp_all
+      split
+      · rfl
+      · rename_i hc
+        rcases hdf rfl with hu | hnone
+        · have : defaultInScope st = false := by
+            cases hd : defaultInScope st with
+            | false => rfl
+            | true => exact absurd (by simp [hu, hd]) hc
+          simpa using hdis this
+        · simp [hnone]
     | some u => rfl
   refine ⟨heq', hok.2, ?_, ?_⟩
   · intro rest
@@ -87,8 +104,8 @@ theorem parseElem_otag (fx : Fixes) (hn : fx.numbered = true) (hr : fx.reserved 
     rw [hdecl, hdflt] at this
     exact this
 
-theorem printONode_head2 (fx : Fixes) (st : NsStack) (n : ONode) (inD : Bool)
-    (hn : ONodeOk inD n) : ∃ b t, printONode fx st n = 60 :: b :: t ∧ b ≠ 47 := by
+theorem printONode_head2 (fx : Fixes) (st : NsStack) (n : ONode) (strict inD : Bool)
+    (hn : ONodeOk strict inD n) : ∃ b t, printONode fx st n = 60 :: b :: t ∧ b ≠ 47 := by
   cases n with
   | mk name pfx ns value valPfx attrs kids =>
     have hnm : NameOk name := by
@@ -120,8 +137,8 @@ theorem printOList_head (fx : Fixes) (st : NsStack) (k : ONode) (ks : List ONode
 
 mutual
 theorem parseElem_oprint (fx : Fixes) (hn : fx.numbered = true) (hr : fx.reserved = true) (env st : NsStack)
-    (heq : EnvEq env st) (hst : StackOk st) (inD : Bool) (hD : inD = false → findDefault st = none)
-    (n : ONode) (hok : ONodeOk inD n) (rest : Bytes) (fuel : Nat) (hf : ocost n ≤ fuel) :
+    (heq : EnvEq env st) (hst : StackOk st) (strict : Bool) (hS : strict = false → fx.undeclare = true) (inD : Bool)
+    (hD : inD = false → findDefault st = none) (n : ONode) (hok : ONodeOk strict inD n) (rest : Bytes) (fuel : Nat) (hf : ocost n ≤ fuel) :
     parseElem env fuel (printONode fx st n ++ rest) = some (oview n, rest) := by
   cases n with
   | mk name pfx ns value valPfx attrs kids =>
@@ -129,7 +146,11 @@ theorem parseElem_oprint (fx : Fixes) (hn : fx.numbered = true) (hr : fx.reserve
     obtain ⟨hname, hnsd, hns, hval, hpd, hat, hdup, hcons, hkids⟩ := hok
     obtain ⟨f, rfl⟩ : ∃ f, fuel = f + 1 := ⟨fuel - 1, by simp [ocost] at hf; omega⟩
     obtain ⟨items, st', htag⟩ : ∃ items st', startTagItems fx st ns value valPfx attrs = (items, st') := ⟨_, _, rfl⟩
-    have hdf : ns = none → findDefault st = none := fun h => hD (hnsd h)
+    have hdf : ns = none → fx.undeclare = true ∨ findDefault st = none := by
+      intro h
+      cases hs : strict with
+      | false => exact Or.inl (hS hs)
+      | true => exact Or.inr (hD (hnsd h hs))
     obtain ⟨heq', hst', hsc, hopen⟩ := parseElem_otag fx hn hr env st heq hst name ns value valPfx attrs hname hns hpd hat hdup
       hcons hdf items st' htag f
     have hD' : (inD || ns.isSome) = false → findDefault st' = none := by
@@ -139,7 +160,8 @@ theorem parseElem_oprint (fx : Fixes) (hn : fx.numbered = true) (hr : fx.reserve
       have hfd := startTag_findDefault fx hn hr st ns value valPfx attrs
       rw [htag] at hfd
       subst h2
-      simpa [hD h1] using hfd
+      have hdis : defaultInScope st = false := by simp [defaultInScope, hD h1]
+      simpa [hD h1, hdis] using hfd
     cases kids with
     | nil =>
       by_cases he : value = []
@@ -157,7 +179,7 @@ theorem parseElem_oprint (fx : Fixes) (hn : fx.numbered = true) (hr : fx.reserve
         have := hopen _ _ _ rest hc
         simpa [printONode, htag, oview, oviewList, sLtSlash, hemp, List.append_assoc] using this
     | cons k ks =>
-      have hkc := parseContent_oprint fx hn hr (declared items ++ env) st' heq' hst' (inD || ns.isSome) hD' (k :: ks) hkids
+      have hkc := parseContent_oprint fx hn hr (declared items ++ env) st' heq' hst' strict hS (inD || ns.isSome) hD' (k :: ks) hkids
         (60 :: 47 :: (name ++ 62 :: rest)) (Or.inr ⟨_, rfl⟩)
       by_cases he : value = []
       · subst he
@@ -174,8 +196,8 @@ theorem parseElem_oprint (fx : Fixes) (hn : fx.numbered = true) (hr : fx.reserve
         have := hopen _ _ _ rest hc
         simpa [printONode, htag, oview, sLtSlash, hemp, List.append_assoc] using this
 theorem parseContent_oprint (fx : Fixes) (hn : fx.numbered = true) (hr : fx.reserved = true) (env st : NsStack)
-    (heq : EnvEq env st) (hst : StackOk st) (inD : Bool) (hD : inD = false → findDefault st = none)
-    (l : List ONode) (hl : OListOk inD l) (tail : Bytes) (htail : tail = [] ∨ ∃ r, tail = 60 :: 47 :: r)
+    (heq : EnvEq env st) (hst : StackOk st) (strict : Bool) (hS : strict = false → fx.undeclare = true) (inD : Bool)
+    (hD : inD = false → findDefault st = none) (l : List ONode) (hl : OListOk strict inD l) (tail : Bytes) (htail : tail = [] ∨ ∃ r, tail = 60 :: 47 :: r)
     (fuel : Nat) (hf : ocosts l ≤ fuel) :
     parseContent env fuel (printOList fx st l ++ tail) = some ([], oviewList l, tail) := by
   cases l with
@@ -186,10 +208,10 @@ theorem parseContent_oprint (fx : Fixes) (hn : fx.numbered = true) (hr : fx.rese
     unfold OListOk at hl
     obtain ⟨hk, hks⟩ := hl
     obtain ⟨f, rfl⟩ : ∃ f, fuel = f + 1 := ⟨fuel - 1, by simp [ocosts] at hf; omega⟩
-    have h1 := parseElem_oprint fx hn hr env st heq hst inD hD k hk (printOList fx st ks ++ tail) f
+    have h1 := parseElem_oprint fx hn hr env st heq hst strict hS inD hD k hk (printOList fx st ks ++ tail) f
       (by simp [ocosts] at hf; omega)
-    have h2 := parseContent_oprint fx hn hr env st heq hst inD hD ks hks tail htail f (by simp [ocosts] at hf; omega)
-    obtain ⟨b, t, hp, hb⟩ := printONode_head2 fx st k inD hk
+    have h2 := parseContent_oprint fx hn hr env st heq hst strict hS inD hD ks hks tail htail f (by simp [ocosts] at hf; omega)
+    obtain ⟨b, t, hp, hb⟩ := printONode_head2 fx st k strict inD hk
     have hb' : ¬ (some b = some (47 : UInt8)) := by simpa using hb
     simp only [printOList, List.append_assoc]
     rw [hp] at h1 ⊢
@@ -199,13 +221,13 @@ theorem parseContent_oprint (fx : Fixes) (hn : fx.numbered = true) (hr : fx.rese
 end
 
 mutual
-theorem ocost_le_len (fx : Fixes) (st : NsStack) (inD : Bool) (n : ONode) (hok : ONodeOk inD n) :
+theorem ocost_le_len (fx : Fixes) (st : NsStack) (strict inD : Bool) (n : ONode) (hok : ONodeOk strict inD n) :
     ocost n + 1 ≤ (printONode fx st n).length := by
   cases n with
   | mk name pfx ns value valPfx attrs kids =>
     unfold ONodeOk at hok
     have := name_len_pos name hok.1
-    have ih := ocosts_le_len fx (startTagItems fx st ns value valPfx attrs).2 (inD || ns.isSome) kids hok.2.2.2.2.2.2.2.2
+    have ih := ocosts_le_len fx (startTagItems fx st ns value valPfx attrs).2 strict (inD || ns.isSome) kids hok.2.2.2.2.2.2.2.2
     unfold printONode
     simp only [ocost]
     split
@@ -214,24 +236,25 @@ theorem ocost_le_len (fx : Fixes) (st : NsStack) (inD : Bool) (n : ONode) (hok :
       have : kids = [] := by cases kids <;> simp_all
       subst this
       split <;> simp [sSlashGt, sLtSlash, ocosts] <;> omega
-theorem ocosts_le_len (fx : Fixes) (st : NsStack) (inD : Bool) (l : List ONode) (hl : OListOk inD l) :
+theorem ocosts_le_len (fx : Fixes) (st : NsStack) (strict inD : Bool) (l : List ONode) (hl : OListOk strict inD l) :
     ocosts l ≤ (printOList fx st l).length + 1 := by
   cases l with
   | nil => simp [ocosts, printOList]
   | cons k ks =>
     unfold OListOk at hl
-    have h1 := ocost_le_len fx st inD k hl.1
-    have h2 := ocosts_le_len fx st inD ks hl.2
+    have h1 := ocost_le_len fx st strict inD k hl.1
+    have h2 := ocosts_le_len fx st strict inD ks hl.2
     simp [ocosts, printOList] at h1 h2 ⊢; omega
 end
 
 /-- The document the data printer emits for a forest of opaque nodes (shrink mode) is well-formed XML with namespaces, and a
     namespace-aware reader recovers exactly the elements in order with their expanded names, their attributes with expanded
     names and values, and their character data. -/
-theorem parseDoc_printOpaqData (fx : Fixes) (hn : fx.numbered = true) (hr : fx.reserved = true) (forest : List ONode)
-    (h : OListOk false forest) : parseDoc (printOpaqData fx forest) = some (oviewList forest) := by
-  have hc := ocosts_le_len fx [] false forest h
-  have := parseContent_oprint fx hn hr [] [] (fun _ => rfl) (by intro q u hm; simp at hm) false (fun _ => rfl) forest h []
+theorem parseDoc_printOpaqData (fx : Fixes) (hn : fx.numbered = true) (hr : fx.reserved = true) (strict : Bool)
+    (hS : strict = false → fx.undeclare = true) (forest : List ONode)
+    (h : OListOk strict false forest) : parseDoc (printOpaqData fx forest) = some (oviewList forest) := by
+  have hc := ocosts_le_len fx [] strict false forest h
+  have := parseContent_oprint fx hn hr [] [] (fun _ => rfl) (by intro q u hm; simp at hm) strict hS false (fun _ => rfl) forest h []
     (Or.inl rfl) ((printOpaqData fx forest).length + 2) (by simp [printOpaqData] at hc ⊢; omega)
   simp [parseDoc, printOpaqData] at this ⊢
   simp [this]
@@ -298,7 +321,7 @@ theorem attrOkB_sound (a : OAttr) (h : attrOkB a = true) : AttrOk a := by
     · exact h6
 
 mutual
-theorem onodeOkB_sound (inD : Bool) (n : ONode) (h : onodeOkB inD n = true) : ONodeOk inD n := by
+theorem onodeOkB_sound (strict inD : Bool) (n : ONode) (h : onodeOkB strict inD n = true) : ONodeOk strict inD n := by
   cases n with
   | mk name pfx ns value valPfx attrs kids =>
     unfold onodeOkB at h
@@ -306,11 +329,12 @@ theorem onodeOkB_sound (inD : Bool) (n : ONode) (h : onodeOkB inD n = true) : ON
     obtain ⟨⟨⟨⟨⟨⟨⟨⟨h1, h2⟩, h3⟩, h4⟩, h5⟩, h6⟩, h7⟩, h8⟩, h9⟩ := h
     unfold ONodeOk
     refine ⟨nameOkB_sound _ h1, ?_, ?_, noCtlB_sound _ h4, pfxDataOkB_sound _ h5, fun a ha => attrOkB_sound a (h6 a ha), h7, h8,
-      olistOkB_sound _ kids h9⟩
-    · intro hns
-      rcases h2 with h2 | h2
+      olistOkB_sound strict _ kids h9⟩
+    · intro hns hs
+      rcases h2 with (h2 | h2) | h2
       · rw [hns] at h2; cases h2
       · exact h2
+      · rw [hs] at h2; cases h2
     · intro u hu
       cases hq : ns with
       | none => rw [hq] at hu; cases hu
@@ -319,16 +343,19 @@ theorem onodeOkB_sound (inD : Bool) (n : ONode) (h : onodeOkB inD n = true) : ON
         have : q = u := by simpa using hu
         subst this
         exact noCtlB_sound _ h3
-theorem olistOkB_sound (inD : Bool) (l : List ONode) (h : olistOkB inD l = true) : OListOk inD l := by
+theorem olistOkB_sound (strict inD : Bool) (l : List ONode) (h : olistOkB strict inD l = true) : OListOk strict inD l := by
   cases l with
   | nil => unfold OListOk; trivial
   | cons k ks =>
     unfold olistOkB at h
     simp only [Bool.and_eq_true] at h
     unfold OListOk
-    exact ⟨onodeOkB_sound inD k h.1, olistOkB_sound inD ks h.2⟩
+    exact ⟨onodeOkB_sound strict inD k h.1, olistOkB_sound strict inD ks h.2⟩
 end
 
-theorem opaqOk_sound (forest : List ONode) (h : opaqOk forest = true) : OListOk false forest := olistOkB_sound false forest h
+theorem opaqOk_sound (forest : List ONode) (h : opaqOk forest = true) : OListOk true false forest := olistOkB_sound true false forest h
+
+theorem opaqOkAnyNs_sound (forest : List ONode) (h : opaqOkAnyNs forest = true) : OListOk false false forest :=
+  olistOkB_sound false false forest h
 
 end LyModel.XmlTree
